@@ -32,6 +32,19 @@ def gen(ctx):
     for i in range(n):
         spec = M.random_spec(rng)
         cases.append({"kind": "method", "spec": spec, "dm": M.in_domain_dm(rng, spec, max_m=ctx.n(10, 16), ties=rng.choice([0.0, 0.3, 0.7]))})
+    # near-tied scores next to a much larger one: two rows differing by one ulp in one cell, a third row scaled up
+    import math
+    for i in range(ctx.n(60, 600)):
+        spec = M.random_spec(rng, ["WSM", "WPM", "RatioMOORA", "FMF", "TOPSIS", "RefPointMOORA"])
+        dm = M.in_domain_dm(rng, spec, max_m=6, max_n=4, ties=0.0, dups=0.0, family="float")
+        dm["int_matrix"] = False
+        m0 = dm["matrix"]
+        j = rng.randrange(len(m0[0]))
+        m0[1] = list(m0[0])
+        m0[1][j] = math.nextafter(m0[0][j], math.inf)
+        if len(m0) > 2:
+            m0[2] = [x * 2.0 ** rng.randint(8, 30) for x in m0[2]]
+        cases.append({"kind": "method", "spec": spec, "dm": dm, "near": True})
     for i in range(ctx.n(10, 120)):
         spec = M.random_spec(rng, ["SIMUS"])
         cases.append({"kind": "method", "spec": spec, "dm": M.in_domain_dm(rng, spec, max_m=6, max_n=4, ties=0.3)})
